@@ -66,7 +66,8 @@ Definition payload_as_sent (is_text : bool) (frag : bytes) : bytes :=
 
 Record wsmessage := mkMsg {
   m_text : bool; m_from_client : bool; m_content : bytes; m_dropped : bool; m_injected : bool;
-  m_lens : list nat   (* ghost: fragment_lengths of the Fragmentizer created for this message *)
+  m_lens : list nat;  (* ghost: fragment_lengths of the Fragmentizer created for this message *)
+  m_orig : bytes      (* ghost: the content when the message hook fired, before addons edited it *)
 }.
 
 (* frame_buf is the non-empty list fb_done ++ [fb_cur] *)
@@ -154,9 +155,9 @@ Definition on_message (fs : nat) (addon : addon_t) (from_client injected : bool)
     let content := concat bufs in
     let lens := map (@length byte) bufs in                          (* Fragmentizer(src_ws.frame_buf, is_text) *)
     let s1 := set_ws from_client (mkConn [] [] (cstate src)) s in   (* frame_buf = [b""] *)
-    let m := mkMsg is_text from_client content false injected lens in
+    let m := mkMsg is_text from_client content false injected lens content in
     let (content', dropped') := addon (messages s1 ++ [m]) in       (* the hook: addons edit the message *)
-    let m' := mkMsg is_text from_client content' dropped' injected lens in
+    let m' := mkMsg is_text from_client content' dropped' injected lens content in
     let s2 := set_messages (messages s1 ++ [m']) s1 in
     if dropped' then (s2, [CMsgHook])
     else match fragmentize fs lens is_text content' with
